@@ -1,5 +1,6 @@
 import VD.Val
 import VM.Cache
+import VM.Executor
 /-! Line-protocol driver for histories (slice H): one DAG table, several instances, operations
     call / executor run / setup / fork (deep copy) / restart-from-cache.
 
@@ -14,6 +15,11 @@ import VM.Cache
     O <inst> peek <k> <sel>^k <na> <value>^na             like call, instance unchanged
     O <inst> fork <newinst>
     O <inst> seeded <k> <sel>^k <m> <cached>^m <na> <value>^na     restart of the run (sel,args) from a cache holding `cached`
+    O <inst> xcache <slot> <k> <sel>^k <m> <noncache>^m <na> <value>^na
+                                                           a fresh executor with cache_in = file <slot> (cache_deps_of targets
+                                                           = noncache) called once (VM.xRun); the answer carries `F <keys>`:
+                                                           the ids the model says the file holds (n, n+1 = the DAG's parameters)
+    O <inst> xrestart <slot> <k> <sel>^k <na> <value>^na   a fresh executor with from_cache = file <slot> called once
     E
     -> <id> <opidx> OK|FAIL E <entered…> R <value or -> per node
 -/
@@ -79,12 +85,19 @@ def mkDag (specs : Array NSpec) : Dag Val :=
 
 def takeNats (k : Nat) (t : Toks) : List Nat × Toks := ((t.take k).filterMap String.toNat?, t.drop k)
 
-def report (sid : String) (idx : Nat) (n : Nat) (c : ECfg Val) : String :=
+def reportF (sid : String) (idx : Nat) (n : Nat) (c : ECfg Val) (file : String) : String :=
   let ρ := den c
   let ok := succeeded c
   let ent := (entered c).mergeSort (· ≤ ·)
   let vals := (List.range n).map fun i => match ρ i with | some v => v.render | none => "-"
-  s!"{sid} {idx} {if ok then "OK" else "FAIL"} E {" ".intercalate (ent.map toString)} R {" ".intercalate vals}"
+  s!"{sid} {idx} {if ok then "OK" else "FAIL"}{file} E {" ".intercalate (ent.map toString)} R {" ".intercalate vals}"
+
+def report (sid : String) (idx : Nat) (n : Nat) (c : ECfg Val) : String := reportF sid idx n c ""
+
+/-- the node / parameter ids a file holds, with the values of the nodes -/
+def fileKeys (n : Nat) (f : File Val) : String :=
+  let ks := (List.range (n + 2)).filter (fun i => (f i).isSome)
+  " F " ++ " ".intercalate (ks.map fun i => s!"{i}={match f i with | some v => v.render | none => "-"}")
 
 partial def readAll (h : IO.FS.Stream) (acc : Array String) : IO (Array String) := do
   let line ← h.getLine
@@ -109,6 +122,7 @@ def main : IO Unit := do
       let dag := mkDag specs
       let res0 : Results Val := fun x => if x = n + 1 then some (.int 7) else none
       let mut insts : Array (Inst Val) := #[⟨dag, res0⟩]
+      let mut files : Nat → Option (File Val) := fun _ => none
       i := i + 1 + n
       let mut idx := 0
       while i < lines.size && lines[i]! != "E" do
@@ -152,6 +166,40 @@ def main : IO Unit := do
             IO.println (report sid idx n c')
             if succeeded c' then insts := insts.setIfInBounds inst.toNat! (copyBack it (den c'))
           | [] => IO.println s!"{sid} {idx} PARSE"
+        | "O" :: inst :: "xcache" :: slot :: k :: r =>
+          let (sel, r1) := takeNats k.toNat! r
+          match r1 with
+          | m :: r2 =>
+            let (nonc, r3) := takeNats m.toNat! r2
+            let args := match r3 with
+              | na :: r4 => (match pVal.pVals na.toNat! r4 with | some (l, _) => l | none => [])
+              | [] => []
+            let it := insts.getD inst.toNat! ⟨dag, res0⟩
+            let spec : XSpec := ⟨sel, fun x => nonc.contains x, some slot.toNat!, none⟩
+            let w : World Val := ⟨it, files⟩
+            let r := xRun w (XObj.fresh spec) args
+            let c := xCfgOf it spec it.res args
+            let fk := match r.2.2, r.1.files slot.toNat! with
+              | .ok _, some f => fileKeys n f
+              | _, _ => ""
+            IO.println (reportF sid idx n c fk)
+            insts := insts.setIfInBounds inst.toNat! r.1.inst
+            files := r.1.files
+          | [] => IO.println s!"{sid} {idx} PARSE"
+        | "O" :: inst :: "xrestart" :: slot :: k :: r =>
+          let (sel, r1) := takeNats k.toNat! r
+          let args := match r1 with
+            | na :: r2 => (match pVal.pVals na.toNat! r2 with | some (l, _) => l | none => [])
+            | [] => []
+          let it := insts.getD inst.toNat! ⟨dag, res0⟩
+          let spec : XSpec := ⟨sel, fun _ => false, none, some slot.toNat!⟩
+          let w : World Val := ⟨it, files⟩
+          match xStart w spec with
+          | none => IO.println s!"{sid} {idx} NOFILE"
+          | some start =>
+            let r := xRun w (XObj.fresh spec) args
+            IO.println (report sid idx n (xCfgOf it spec start args))
+            insts := insts.setIfInBounds inst.toNat! r.1.inst
         | _ => IO.println s!"{sid} {idx} PARSE"
         idx := idx + 1
         i := i + 1
